@@ -1,2 +1,122 @@
-(* placeholder during development *)
-From SDC Require Import Location.Quote Location.Loc Location.Gen_Loc.
+(* C16 -- Location scopes round-trip; location filtering tolerates foreign scopes.
+   Property theorems only; each is closed by [exact] of a lemma proved in Location/Proofs.v.
+   Strings are UTF-8 byte lists; [loc_consts] is regenerated from the source on every run.
+   [bad] is the abstract verdict of urlsplit's ipaddress / NFKC checks (never consulted on the
+   scope texts the library produces itself, hence universally quantified). *)
+From Coq Require Import List NArith Bool.
+From SDC Require Import Location.Quote Location.Loc Location.Proofs Location.Gen_Loc.
+Import ListNotations.
+Open Scope N_scope.
+
+(* unquote undoes quote for every byte string and every safe set without '%' (the code uses '' and '/') *)
+Theorem C16_unquote_quote : forall safe s,
+  is_bytes s -> mem 37 safe = false -> unquote (quote safe s) = s.
+Proof. exact unquote_quote. Qed.
+Print Assumptions C16_unquote_quote.
+
+(* the constants found in the source today satisfy the side conditions of the theorems below *)
+Theorem C16_consts_ok : consts_ok loc_consts = true.
+Proof. vm_compute. reflexivity. Qed.
+Print Assumptions C16_consts_ok.
+
+(* scope_string then from_scope_string is the identity: any byte values (reserved characters, '%',
+   non-ASCII UTF-8, ...) in any combination of present / absent elements; the empty string counts as
+   absent in the code, so it is excluded; the root must be non-empty and free of '/' *)
+Theorem C16_roundtrip : forall bad l,
+  wf_loc loc_consts l -> nonempty_fields l -> root_ok (l_root l) = true ->
+  from_scope loc_consts (urlsplit bad) (scope_string loc_consts l) = inl l.
+Proof. exact (roundtrip loc_consts C16_consts_ok). Qed.
+Print Assumptions C16_roundtrip.
+
+(* update_from_sdc_location + mk_scopes publish a scope for every location with one non-empty element *)
+Theorem C16_published_defined : forall l v,
+  wf_loc loc_consts l -> In (Some v) (l_vals l) -> v <> [] -> exists s, published_of loc_consts l = Some s.
+Proof. exact (published_defined loc_consts). Qed.
+Print Assumptions C16_published_defined.
+
+(* ... and that scope is inside the location itself and inside every enclosing location l'
+   (each element of l' absent or equal), for the code as it is and for the repaired code *)
+Theorem C16_published_inside : forall bad fixed l l' s,
+  wf_loc loc_consts l -> nonempty_fields l -> published_of loc_consts l = Some s ->
+  l_root l' = c_ident_root loc_consts -> Forall2 elem_enclosed (l_vals l') (l_vals l) ->
+  scope_matches loc_consts fixed (urlsplit bad) l' s = Ret true.
+Proof. exact (published_inside loc_consts C16_consts_ok). Qed.
+Print Assumptions C16_published_inside.
+
+(* ... and inside no location that specifies an element differently *)
+Theorem C16_not_inside_if_differs : forall bad fixed l l' s i v x,
+  wf_loc loc_consts l -> published_of loc_consts l = Some s ->
+  nth_error (l_vals l') i = Some (Some v) -> nth_error (l_vals l) i = Some x -> x <> Some v ->
+  scope_matches loc_consts fixed (urlsplit bad) l' s = Ret false.
+Proof. exact (published_not_inside loc_consts C16_consts_ok). Qed.
+Print Assumptions C16_not_inside_if_differs.
+
+Theorem C16_not_inside_if_root_differs : forall bad fixed l l' s,
+  wf_loc loc_consts l -> published_of loc_consts l = Some s -> l_root l' <> c_ident_root loc_consts ->
+  scope_matches loc_consts fixed (urlsplit bad) l' s = Ret false.
+Proof. exact (published_not_inside_root loc_consts C16_consts_ok). Qed.
+Print Assumptions C16_not_inside_if_root_differs.
+
+(* the same two facts for the text produced by SdcLocation.scope_string *)
+Theorem C16_scope_string_inside : forall bad fixed l l',
+  wf_loc loc_consts l -> nonempty_fields l -> root_ok (l_root l) = true ->
+  l_root l' = l_root l -> Forall2 elem_enclosed (l_vals l') (l_vals l) ->
+  scope_matches loc_consts fixed (urlsplit bad) l' (scope_string loc_consts l) = Ret true.
+Proof. exact (scope_string_inside loc_consts C16_consts_ok). Qed.
+Print Assumptions C16_scope_string_inside.
+
+Theorem C16_scope_string_not_inside : forall bad fixed l l' i v x,
+  wf_loc loc_consts l -> nonempty_fields l -> root_ok (l_root l) = true ->
+  nth_error (l_vals l') i = Some (Some v) -> nth_error (l_vals l) i = Some x -> x <> Some v ->
+  scope_matches loc_consts fixed (urlsplit bad) l' (scope_string loc_consts l) = Ret false.
+Proof. exact (scope_string_not_inside loc_consts C16_consts_ok). Qed.
+Print Assumptions C16_scope_string_not_inside.
+
+(* the containment test is exactly "same root, every own element absent or equal" *)
+Theorem C16_contains_spec : forall self other, length (l_vals self) = length (l_vals other) ->
+  (contains self other = true <->
+   l_root self = l_root other /\ Forall2 elem_enclosed (l_vals self) (l_vals other)).
+Proof. exact contains_spec. Qed.
+Print Assumptions C16_contains_spec.
+
+(* repaired code (ValueError of the scope parser means "not inside"): filtering never raises, for ANY
+   behaviour of urlsplit, any own location, any services and scope strings; it returns exactly the
+   services with a scope that parses to a location inside the own one *)
+Theorem C16_filter_total : forall K split self svs,
+  exists r, filter_inside K true split self svs = Ret r.
+Proof. exact filter_total. Qed.
+Print Assumptions C16_filter_total.
+
+Theorem C16_filter_spec : forall K split self svs,
+  filter_inside K true split self svs = Ret (filter (service_inside K split self) svs).
+Proof. exact filter_spec. Qed.
+Print Assumptions C16_filter_spec.
+
+(* the code as it is in /repo today (fixed = false) does raise: a scope with four path segments *)
+Definition c16_witness_scope : bytes :=   (* "sdc.ctxt.loc:/a/b/c" *)
+  [115; 100; 99; 46; 99; 116; 120; 116; 46; 108; 111; 99; 58; 47; 97; 47; 98; 47; 99].
+Theorem C16_filter_total_unpatched_refuted : exists self svs,
+  filter_inside loc_consts false (urlsplit false) self svs = Raise.
+Proof.
+  exists (mkLoc (c_default_root loc_consts) [None; None; None; None; None; None]),
+         [Some [c16_witness_scope]].
+  vm_compute. reflexivity.
+Qed.
+Print Assumptions C16_filter_total_unpatched_refuted.
+
+(* non-vacuity: a location with reserved and non-ASCII bytes meets the hypotheses, is published,
+   and its scope parses back *)
+Example C16_nonvacuous :
+  let l := mkLoc (c_default_root loc_consts)
+                 [Some [72; 79; 47; 83; 80; 32; 37; 43; 38; 61]; None; None; Some [195; 169; 240; 159; 152; 128]; None; Some [66]] in
+  wf_loc loc_consts l /\ nonempty_fields l /\ root_ok (l_root l) = true /\
+  (exists s, published_of loc_consts l = Some s) /\
+  from_scope loc_consts (urlsplit false) (scope_string loc_consts l) = inl l.
+Proof.
+  cbv zeta. split; [|split; [|split; [|split]]].
+  - split; [reflexivity|]. repeat (constructor; try reflexivity).
+  - repeat constructor; discriminate.
+  - reflexivity.
+  - eexists. vm_compute. reflexivity.
+  - vm_compute. reflexivity.
+Qed.
